@@ -270,7 +270,7 @@ pub fn run(op: &str, a: &Args) -> Option<Args> {
     Some(match op {
         "c12.arith" => int_dispatch!(hb(a, 0), h(a, 1), run_arith, a),
         "c12.temporal" => run_temporal(a),
-        "c12.neg" => int_dispatch!(hb(a, 0), h(a, 1), run_neg, a),
+        "c12.neg" => agg_dispatch!(hb(a, 0), h(a, 1), run_neg, a),
         "c12.i256" => run_i256(a),
         "c12.decimal" => dec_dispatch!(h(a, 0), run_decimal, a),
         "c12.bool" => run_bool(a),
@@ -405,6 +405,30 @@ fn gen_arith_random_x(r: &mut Rng, emit: &mut dyn FnMut(Case), signed: bool, bit
     let tag = format!("ar {}{} op{} lay{} n{} nl{}{} e{}", if signed { 'i' } else { 'u' }, bits, op, layout, len_class(n),
         l.hasnulls as u8, rr.hasnulls as u8, has_err as u8);
     emit_arith_x(emit, signed, bits, op, &l, &rr, tag, temporal);
+}
+
+/// rows drawn from the delicate operand pairs (MIN,-1), (MIN,1), (x,0), (MAX,MAX), ... as valid rows
+fn gen_arith_special(r: &mut Rng, emit: &mut dyn FnMut(Case), signed: bool, bits: u32, op: i64) {
+    let (mn, mx) = (tmin(signed, bits), tmax(signed, bits));
+    let m1 = if signed { BigInt::from(-1) } else { mx.clone() };
+    let pairs: Vec<(BigInt, BigInt)> = vec![
+        (mn.clone(), m1.clone()), (mn.clone(), BigInt::one()), (m1.clone(), mn.clone()), (mx.clone(), m1.clone()),
+        (mn.clone(), mn.clone()), (mx.clone(), mx.clone()), (mn.clone(), mx.clone()), (mx.clone(), mn.clone()),
+        (mx.clone(), BigInt::one()), (mn.clone() + 1, m1.clone()), (BigInt::zero(), m1.clone()), (mx.clone(), BigInt::from(2)),
+        (mn.clone(), BigInt::from(2)), (BigInt::from(7), BigInt::zero()), (mn.clone(), BigInt::zero()), (BigInt::zero(), BigInt::zero()),
+        (&mx / 2 + 1, BigInt::from(2)), (&mx / 2, BigInt::from(2)), (&mn / 2, BigInt::from(2)), (&mn / 2 - if signed { 1 } else { 0 }, BigInt::from(2)),
+    ];
+    for &(ref a, ref b) in &pairs {
+        // the pair alone or among harmless rows; array/array or scalar layouts; with or without null buffers
+        let n = 1 + r.below(5);
+        let pos = r.below(n);
+        let lay = r.below(3);
+        let (ls, rs) = if n == 1 { (lay == 1, lay == 2) } else { (false, false) };
+        let mut l = Side { vals: vec![BigInt::one(); n], valid: vec![true; n], hasnulls: r.bool(), scalar: ls, off: r.below(20) };
+        let mut rr = Side { vals: vec![BigInt::one(); n], valid: vec![true; n], hasnulls: r.bool(), scalar: rs, off: r.below(20) };
+        l.vals[pos] = a.clone(); rr.vals[pos] = b.clone();
+        emit_arith(emit, signed, bits, op, &l, &rr, format!("arsp {}{} op{} e{}", if signed { 'i' } else { 'u' }, bits, op, (row_error(signed, bits, op, a, b) != 0) as u8));
+    }
 }
 
 /// 8-bit: every operand pair.  For each left value `a`: one array case over all 256 right values
@@ -718,6 +742,7 @@ pub fn generate(tier: &str, r: &mut Rng, emit: &mut dyn FnMut(Case)) {
         for bits in [8u32, 16, 32, 64] {
             let bnd = boundary(signed, bits);
             for op in 0..8 {
+                gen_arith_special(r, emit, signed, bits, op);
                 for _ in 0..(if thorough { 400 } else { 40 }) { gen_arith_random(r, emit, signed, bits, op, &bnd); }
             }
             for wrapping in [false, true] {
@@ -726,6 +751,33 @@ pub fn generate(tier: &str, r: &mut Rng, emit: &mut dyn FnMut(Case)) {
                     let vals = (0..n).map(|_| rand_val(r, signed, bits, &bnd)).collect();
                     let hide = r.chance(3, 4);
                     gen_neg(r, emit, signed, bits, wrapping, vals, hide, "neg");
+                }
+            }
+        }
+        // neg: MIN as a valid row (alone / among others), and hidden under a null, for every signed width
+        // (128/256: the Decimal128/256 natives through the checked `neg`)
+        if signed {
+            for bits in [8u32, 16, 32, 64, 128, 256] {
+                let bnd = boundary(true, bits);
+                for wrapping in [false, true] {
+                    if wrapping && bits > 64 { continue; }
+                    for variant in 0..(if thorough { 24 } else { 8 }) {
+                        let n = if variant == 0 { 1 } else { 1 + r.below(70) };
+                        let mut vals: Vec<BigInt> = (0..n).map(|_| rand_val(r, true, bits, &bnd)).collect();
+                        for v in vals.iter_mut() { if *v == tmin(true, bits) { *v = BigInt::one(); } }
+                        let p = r.below(n);
+                        vals[p] = tmin(true, bits);
+                        gen_neg(r, emit, true, bits, wrapping, vals, variant % 2 == 1, "negmin");
+                    }
+                }
+            }
+            for bits in [128u32, 256] {
+                let bnd = boundary(true, bits);
+                for _ in 0..(if thorough { 100 } else { 10 }) {
+                    let n = r.below(100);
+                    let vals = (0..n).map(|_| rand_val(r, true, bits, &bnd)).collect();
+                    let hide = r.chance(3, 4);
+                    gen_neg(r, emit, true, bits, false, vals, hide, "neg");
                 }
             }
         }
